@@ -288,6 +288,8 @@ func Run(plan Plan, watchdog time.Duration) (res *Result) {
 		name := fmt.Sprintf("m%d", memSeq)
 		memMu.Unlock()
 		mrng := rand.New(rand.NewPCG(plan.Seed, uint64(1000+memSeq)))
+		cbrng := rand.New(rand.NewPCG(plan.Seed, uint64(5000+memSeq))) // callbacks run on kgo's goroutines
+		var cbMu sync.Mutex
 		ctx := context.Background()
 		if plan.Protocol == "848" {
 			ctx = context.WithValue(ctx, "opt_in_kafka_next_gen_balancer_beta", true) //nolint
@@ -306,7 +308,9 @@ func Run(plan Plan, watchdog time.Duration) (res *Result) {
 			}),
 			kgo.OnPartitionsRevoked(func(_ context.Context, _ *kgo.Client, parts map[string][]int32) {
 				mon.log(Event{Kind: "revoked-start", Member: name, Parts: parts})
-				e2e.Jitter(mrng, 300)
+				cbMu.Lock()
+				e2e.Jitter(cbrng, 300)
+				cbMu.Unlock()
 				mon.released(name, "revoked", parts)
 			}),
 			kgo.OnPartitionsLost(func(_ context.Context, _ *kgo.Client, parts map[string][]int32) {
